@@ -126,7 +126,7 @@ def work(item):
             if solve.structure(r) != solve.structure(ref):
                 res['unconfirmed'].append(f'{key}: structure differs on call {k}'); continue
             try:
-                v = solve.equiv(ref, r, pc=P.pc, defined=defined, side=P.side, timeout_ms=10000, margin=1e-9)
+                v = solve.equiv(ref, r, pc=P.pc, defined=defined, side=P.side, timeout_ms=10000, margin=1e-9, budget_s=20)
             except Unsupported as ex:
                 res['status'] = 'unsupported'; continue
             for kk, n in v.counts().items(): res['q'][kk] += n
